@@ -129,8 +129,9 @@ fn pool(kind: &str, n: usize) -> Vec<RKey> {
             },
         });
     }
-    v.sort();
-    v.dedup();
+    // `Ord::cmp` (what `binary_search` in the B+ tree uses), not `PartialOrd::lt` (NULL is unordered there)
+    v.sort_by(|a, b| a.cmp(b));
+    v.dedup_by(|a, b| a.as_slice().cmp(b.as_slice()) == std::cmp::Ordering::Equal);
     v
 }
 
@@ -141,6 +142,7 @@ struct Shape {
     leaves: Vec<(u64, u64, usize)>, // (page id, next_leaf, entries) in order
     internals: Vec<usize>,          // children counts, pre-order
     leaf_keys: Vec<Vec<usize>>,     // key ranks per leaf, in order
+    parent_of: BTreeMap<u64, u64>,  // internal child page → parent page
     entries: Vec<(usize, Vec<usize>)>,
     problems: Vec<String>,
 }
@@ -201,6 +203,11 @@ fn walk(n: &VerifNode, depth: usize, height: usize, degree: usize, pool: &[RKey]
                 sh.problems.push(format!("internal page {} has {} children at degree {}", page_id, children.len(), degree));
             }
             sh.internals.push(children.len());
+            for c in children {
+                if let VerifNode::Internal { page_id: cp, .. } = c {
+                    sh.parent_of.insert(*cp, *page_id);
+                }
+            }
             let ranks: Vec<Option<usize>> = keys.iter().map(|k| rank_of(pool, k)).collect();
             sh.sx.push_str("(I (");
             let mut prev: Option<usize> = None;
@@ -334,6 +341,7 @@ fn run_case(c: &Case, id: u64, args: &Args, model: &mut model::Model, rep: &mut 
     let mut prev_nodes = 0usize;
     let mut prev_leaf_sizes: Vec<usize> = vec![];
     let mut prev_leaf_keys: Vec<Vec<usize>> = vec![];
+    let mut prev_parent_of: BTreeMap<u64, u64> = BTreeMap::new();
     let mut prev_int_sizes: Vec<usize> = vec![];
     let mut prev_height = tree.height();
     // step 0 = the initial tree, step i = after ops[i-1]
@@ -387,7 +395,7 @@ fn run_case(c: &Case, id: u64, args: &Args, model: &mut model::Model, rep: &mut 
                 Op::MGet(ks) => rows_sx(&ks.iter().flat_map(|k| reference.get(k).cloned().unwrap_or_default()).collect::<Vec<_>>()),
                 Op::Range(s, e, a, b) => rows_sx(&ref_range(&reference, *s, *e, *a, *b)),
             };
-            let kind = opname.trim_start_matches('(').split(' ').next().unwrap_or("").to_string();
+            let kind = opname.trim_start_matches('(').trim_end_matches(')').split(' ').next().unwrap_or("").to_string();
             rep.count(&format!("op_{}", kind));
             if real_ans != want_ans {
                 rep.fail(
@@ -481,9 +489,10 @@ fn run_case(c: &Case, id: u64, args: &Args, model: &mut model::Model, rep: &mut 
                     }
                 }
             }
-            if is_del && sh.internals.len() == prev_int_sizes.len() && h == prev_height {
-                let changed = (0..sh.internals.len()).filter(|i| sh.internals[*i] != prev_int_sizes[*i]).count();
-                if changed >= 2 {
+            if is_del {
+                // an internal page that hangs below a different, still existing parent was borrowed
+                let parents: std::collections::BTreeSet<u64> = sh.parent_of.values().copied().collect();
+                if sh.parent_of.iter().any(|(c, p)| prev_parent_of.get(c).map_or(false, |q| q != p && parents.contains(q))) {
                     rep.count("event_internal_borrow");
                 }
             }
@@ -492,6 +501,7 @@ fn run_case(c: &Case, id: u64, args: &Args, model: &mut model::Model, rep: &mut 
         prev_nodes = nodes;
         prev_leaf_sizes = leaf_sizes;
         prev_leaf_keys = sh.leaf_keys.clone();
+        prev_parent_of = sh.parent_of.clone();
         prev_int_sizes = sh.internals.clone();
     }
     drop(tree);
